@@ -1,19 +1,21 @@
 \* C05 thorough: every sequence (any length) of the 11 guard operations over 2 alternative
-\* modules / names / property values, completions new{rec1,dflt,dfltL} with{rec2,dflt,dfltL}
-\* complete_with{rec3,dflt,dfltL,ok,err,errM}, 6 clock scripts (forwards, backwards, standing still,
-\* no reading at start / at completion / at all), both filter verdicts, forms
-\* none/plain/setup/result/resultM/guard/newspan, operations inside and after the frame;
-\* complete / complete_with / drop also while the thread is unwinding.
+\* modules / names / property values; default completions with level / panic level each absent
+\* or present: new{rec1,dflt,dfltl,dfltp,dfltL} with{rec2,dflt,dfltl,dfltL}
+\* complete_with{rec3,dflt,dfltp,dfltL,ok,err}; macro result completions with ok_lvl / err_lvl /
+\* err-mapper each absent or present {ok,okD,err,errD,errM,errMD}; 6 clock scripts (forwards,
+\* backwards, standing still, no reading at start / at completion / at all), both filter verdicts,
+\* forms none/plain/setup/result{,_o,_e}/resultM{,_m}/guard/newspan, operations inside and after
+\* the frame; terminals also while the thread is unwinding.
 SPECIFICATION Spec
 CONSTANTS
     Mdls = {"m1", "m2"}
     Names = {"n1", "n2"}
     PropVals = {1, 2}
-    NewComps = {"rec1", "dflt", "dfltL"}
-    WithComps = {"rec2", "dflt", "dfltL"}
-    CwComps = {"rec3", "dflt", "dfltL", "ok", "err", "errM"}
+    NewComps = {"rec1", "dflt", "dfltl", "dfltp", "dfltL"}
+    WithComps = {"rec2", "dflt", "dfltl", "dfltL"}
+    CwComps = {"rec3", "dflt", "dfltp", "dfltL", "ok", "okD", "err", "errD", "errM", "errMD"}
     Scripts <- MC_ScriptsThorough
-    Forms = {"none", "plain", "setup", "result", "resultM", "guard", "newspan"}
+    Forms = {"none", "plain", "setup", "result", "result_o", "result_e", "resultM", "resultM_m", "guard", "newspan"}
     Frames = {"in", "out"}
     MaxLen = 0
     F2Bug = FALSE
